@@ -29,6 +29,13 @@ CHECKS = {
         "Trusted: foamdict reader, blockMesh progression/multi-grading model and arc-length computation in mc/blockmesh_ref.py, family model. <=3 blocks per chain; edge kinds line/arc.",
         "DESIGN.md 5 C04",
     ),
+    "C05": (
+        "model_checking",
+        "explicit-state search over Mesh.add histories (all insertion orders, canonical key = vertex partition) x interface states (none/named/merged either way) x near-coincidence displacements, executed on the real library; dict reference model (position cluster, slave-patch set) -> vertex",
+        "For every assembly of 2-4 boxes (pair, row, L, diagonal, tower, 2x2 square with crossing merged interfaces), every assignment of interface states and both orders of merge_patches calls, all n! insertion orders are assembled: corners share a vertex iff same position cluster and same slave set (slave vs master side never share), numbering dense and equal to file order, partition identical over orders.",
+        "Trusted: reference model in mc/props/c05.py, foamdict reader. Box corners only; displacements 0.4 TOL / 3 TOL.",
+        "DESIGN.md 5 C05",
+    ),
     "C02": (
         "model_checking",
         "stateless model checking of the implementation: choice-point explorer over set iteration orders (iterative deviation bounding) x exhaustive insertion orders / corner numberings / chop placements of small lattice assemblies, edge-family reference model",
